@@ -220,6 +220,8 @@ func (*TumblingWindow).Add
   acquires tw.mu
   modifies *
   observe late := IsEventTimeLate
+  before extractSessionCompositeKey late-event-never-reaches-ingest: !$late
+  before extractSessionCompositeKey unplaceable-event-never-reaches-ingest: sw.config.TimeCharacteristic == "EventTime" ==> second(extractTimestamp(data, sw.config.TsProp, sw.config.TimeUnit))
   ensures unplaceable-dropped: tw.config.TimeCharacteristic == "EventTime" && !second(extractTimestamp(data, tw.config.TsProp, tw.config.TimeUnit)) ==> tw.data == old(tw.data) && tw.currentSlot == old(tw.currentSlot) && tw.initialized == old(tw.initialized)
   ensures on-time-buffered: tw.config.TimeCharacteristic == "EventTime" && second(extractTimestamp(data, tw.config.TsProp, tw.config.TimeUnit)) && !$late ==> appended(tw.data, old(tw.data), extractTimestamp(data, tw.config.TsProp, tw.config.TimeUnit), data)
   ensures late-in-current-kept: tw.config.TimeCharacteristic == "EventTime" && second(extractTimestamp(data, tw.config.TsProp, tw.config.TimeUnit)) && $late && old(tw.initialized) && old(inSlot(tw.currentSlot, extractTimestamp(data, tw.config.TsProp, tw.config.TimeUnit))) ==> appended(tw.data, old(tw.data), extractTimestamp(data, tw.config.TsProp, tw.config.TimeUnit), data)
@@ -386,6 +388,8 @@ func (*SlidingWindow).Add
   acquires sw.mu
   modifies *
   observe late := IsEventTimeLate
+  before extractSessionCompositeKey late-event-never-reaches-ingest: !$late
+  before extractSessionCompositeKey unplaceable-event-never-reaches-ingest: sw.config.TimeCharacteristic == "EventTime" ==> second(extractTimestamp(data, sw.config.TsProp, sw.config.TimeUnit))
   ensures unplaceable-dropped: sw.config.TimeCharacteristic == "EventTime" && !second(extractTimestamp(data, sw.config.TsProp, sw.config.TimeUnit)) ==> sw.data == old(sw.data) && sw.currentSlot == old(sw.currentSlot) && sw.initialized == old(sw.initialized)
   ensures on-time-buffered: sw.config.TimeCharacteristic == "EventTime" && second(extractTimestamp(data, sw.config.TsProp, sw.config.TimeUnit)) && !$late ==> appended(sw.data, old(sw.data), extractTimestamp(data, sw.config.TsProp, sw.config.TimeUnit), data)
   ensures late-in-current-kept: sw.config.TimeCharacteristic == "EventTime" && second(extractTimestamp(data, sw.config.TsProp, sw.config.TimeUnit)) && $late && old(sw.initialized) && old(inSlot(sw.currentSlot, extractTimestamp(data, sw.config.TsProp, sw.config.TimeUnit))) ==> appended(sw.data, old(sw.data), extractTimestamp(data, sw.config.TsProp, sw.config.TimeUnit), data)
@@ -630,4 +634,133 @@ func NewGlobalWindow
   props C17
   modifies *
   ensures inv: result1 == nil ==> result0 != nil && gwInv(result0)
+@*/
+
+/*@
+// ---------------------------------------------------------------- session window (C10, C02)
+guarded_by SessionWindow.mu: sessionMap, initialized, triggeredSessions, callback
+immutable SessionWindow: config, timeout
+monitor SessionWindow.mu inv ssInv
+
+pred sessOK(s, timeout) := s != nil && allocated(s) && s.slot != nil && allocated(s.slot) && allocated(s.slot.Start) && allocated(s.slot.End)
+  && *s.slot.End == s.lastActive + timeout && *s.slot.Start <= s.lastActive
+  && forall(i, 0, len(s.data), s.data[i].Timestamp >= *s.slot.Start && s.data[i].Timestamp <= s.lastActive && s.data[i].Slot == s.slot)
+pred ssInv(sw) := sw.timeout > 0 && sw.sessionMap != nil && sw.triggeredSessions != nil
+  && forallv(k, "", dom(sw.sessionMap, k) ==> sessOK(sw.sessionMap[k], sw.timeout))
+  && forallv(a, "", forallv(b, "", a != b && dom(sw.sessionMap, a) && dom(sw.sessionMap, b) ==> sw.sessionMap[a].slot != sw.sessionMap[b].slot))
+  && forallv(k, "", dom(sw.triggeredSessions, k) ==> sw.triggeredSessions[k] != nil && sw.triggeredSessions[k].session != nil && sw.triggeredSessions[k].session.slot != nil && sw.triggeredSessions[k].session.slot.Start != nil && sw.triggeredSessions[k].session.slot.End != nil && allocated(sw.triggeredSessions[k].session))
+  && forallv(a, "", forallv(b, "", dom(sw.sessionMap, a) && dom(sw.triggeredSessions, b) ==> sw.sessionMap[a] != sw.triggeredSessions[b].session))
+
+extern extractSessionCompositeKey
+  props C10
+  option pure
+
+func (*SessionWindow).handleLateData
+  props C10 C02
+  held sw.mu
+  requires ssInv(sw)
+  modifies *
+  ensures still-locked: held(sw.mu) && wheld(sw.mu)
+  ensures inv: ssInv(sw)
+  before triggerLateUpdateLocked late-row-joins-only-a-delivered-session-containing-it: *$arg1.slot.Start <= row.Timestamp && row.Timestamp < *$arg1.slot.End && existsv(k, "", dom(sw.triggeredSessions, k) && sw.triggeredSessions[k].session == $arg1)
+  before triggerLateUpdateLocked open-sessions-are-not-touched-by-late-data: forallv(k, "", dom(sw.sessionMap, k) <==> old(dom(sw.sessionMap, k))) && forallv(k, "", dom(sw.sessionMap, k) ==> sw.sessionMap[k] == old(sw.sessionMap[k]))
+  loop 1 invariant held(sw.mu) && wheld(sw.mu) && ssInv(sw)
+  loop 1 invariant forallv(k, "", dom(sw.sessionMap, k) <==> old(dom(sw.sessionMap, k))) && forallv(k, "", dom(sw.sessionMap, k) ==> sw.sessionMap[k] == old(sw.sessionMap[k]))
+
+func (*SessionWindow).triggerLateUpdateLocked
+  props C10 C02
+  held sw.mu
+  requires ssInv(sw)
+  modifies *
+  ensures still-locked: held(sw.mu) && wheld(sw.mu)
+  ensures inv: ssInv(sw)
+
+func (*SessionWindow).closeExpiredSessions
+  props C10 C02
+  held sw.mu
+  requires ssInv(sw)
+  modifies mapof(sw.triggeredSessions)
+  ensures expiry-rule: forallv(k, "", dom(sw.triggeredSessions, k) <==> old(dom(sw.triggeredSessions, k)) && watermarkTime < old(sw.triggeredSessions[k].closeTime))
+  ensures survivors-unchanged: forallv(k, "", dom(sw.triggeredSessions, k) ==> sw.triggeredSessions[k] == old(sw.triggeredSessions[k]))
+  ensures inv: ssInv(sw)
+  loop 1 invariant forallv(k, "", dom(sw.triggeredSessions, k) <==> old(dom(sw.triggeredSessions, k)) && !($visited[k] && watermarkTime >= old(sw.triggeredSessions[k].closeTime)))
+  loop 1 invariant forallv(k, "", dom(sw.triggeredSessions, k) ==> sw.triggeredSessions[k] == old(sw.triggeredSessions[k]))
+
+func (*SessionWindow).checkAndTriggerSessions
+  props C10 C02
+  acquires sw.mu
+  modifies *
+  observe batch := collectExpiredSessions
+  before sendResults sends-exactly-what-expired-under-the-lock: resultsToSend == $batch
+
+func (*SessionWindow).checkExpiredSessions
+  props C10
+  acquires sw.mu
+  modifies *
+  observe batch := collectExpiredSessions
+  before sendResults sends-exactly-what-expired-under-the-lock: resultsToSend == $batch
+
+func (*SessionWindow).SetCallback
+  props C10
+  acquires sw.mu
+  modifies sw.callback
+  ensures sw.callback == callback
+
+func (*SessionWindow).Reset
+  props C10 C02
+  modifies *
+
+func (*SessionWindow).Trigger
+  props C10
+  acquires sw.mu
+  modifies *
+
+func (*SessionWindow).Stop
+  props C10
+  modifies *
+
+func NewSessionWindow
+  props C10 C02
+  modifies *
+  ensures inv: result1 == nil ==> result0 != nil && ssInv(result0) && !result0.initialized
+  ensures no-open-session: result1 == nil ==> forallv(k, "", !dom(result0.sessionMap, k))
+
+func (*SessionWindow).Add
+  props C10 C02
+  acquires sw.mu
+  modifies *
+  owns TimeSlot.End TimeSlot.Start
+  observe late := IsEventTimeLate
+  before extractSessionCompositeKey late-event-never-reaches-ingest: !$late
+  before extractSessionCompositeKey unplaceable-event-never-reaches-ingest: sw.config.TimeCharacteristic == "EventTime" ==> second(extractTimestamp(data, sw.config.TsProp, sw.config.TimeUnit))
+  ensures unplaceable-dropped: sw.config.TimeCharacteristic == "EventTime" && !second(extractTimestamp(data, sw.config.TsProp, sw.config.TimeUnit)) ==> sw.sessionMap == old(sw.sessionMap) && mapUnchangedS(sw)
+  ensures late-event-opens-no-session: sw.config.TimeCharacteristic == "EventTime" && second(extractTimestamp(data, sw.config.TsProp, sw.config.TimeUnit)) && $late && sw.config.AllowedLateness <= 0 ==> sw.sessionMap == old(sw.sessionMap) && mapUnchangedS(sw)
+  ensures first-event-of-a-key-opens-its-session: sw.config.TimeCharacteristic == "EventTime" && second(extractTimestamp(data, sw.config.TsProp, sw.config.TimeUnit)) && !$late && !old(dom(sw.sessionMap, extractSessionCompositeKey(data, sw.config.GroupByKeys))) ==> dom(sw.sessionMap, extractSessionCompositeKey(data, sw.config.GroupByKeys)) && *sw.sessionMap[extractSessionCompositeKey(data, sw.config.GroupByKeys)].slot.Start == extractTimestamp(data, sw.config.TsProp, sw.config.TimeUnit) && *sw.sessionMap[extractSessionCompositeKey(data, sw.config.GroupByKeys)].slot.End == extractTimestamp(data, sw.config.TsProp, sw.config.TimeUnit) + sw.timeout && len(sw.sessionMap[extractSessionCompositeKey(data, sw.config.GroupByKeys)].data) == 1
+  ensures accepted-event-joins-the-keys-session-once: sw.config.TimeCharacteristic == "EventTime" && second(extractTimestamp(data, sw.config.TsProp, sw.config.TimeUnit)) && !$late && old(dom(sw.sessionMap, extractSessionCompositeKey(data, sw.config.GroupByKeys))) ==> sw.sessionMap[extractSessionCompositeKey(data, sw.config.GroupByKeys)] == old(sw.sessionMap[extractSessionCompositeKey(data, sw.config.GroupByKeys)]) && len(sw.sessionMap[extractSessionCompositeKey(data, sw.config.GroupByKeys)].data) == len(old(sw.sessionMap[extractSessionCompositeKey(data, sw.config.GroupByKeys)].data)) + 1
+  ensures window-start-is-the-earliest-and-end-the-latest-plus-timeout: sw.config.TimeCharacteristic == "EventTime" && second(extractTimestamp(data, sw.config.TsProp, sw.config.TimeUnit)) && !$late && old(dom(sw.sessionMap, extractSessionCompositeKey(data, sw.config.GroupByKeys))) ==> *sw.sessionMap[extractSessionCompositeKey(data, sw.config.GroupByKeys)].slot.Start == ite(extractTimestamp(data, sw.config.TsProp, sw.config.TimeUnit) < old(*sw.sessionMap[extractSessionCompositeKey(data, sw.config.GroupByKeys)].slot.Start), extractTimestamp(data, sw.config.TsProp, sw.config.TimeUnit), old(*sw.sessionMap[extractSessionCompositeKey(data, sw.config.GroupByKeys)].slot.Start)) && sw.sessionMap[extractSessionCompositeKey(data, sw.config.GroupByKeys)].lastActive == ite(extractTimestamp(data, sw.config.TsProp, sw.config.TimeUnit) > old(sw.sessionMap[extractSessionCompositeKey(data, sw.config.GroupByKeys)].lastActive), extractTimestamp(data, sw.config.TsProp, sw.config.TimeUnit), old(sw.sessionMap[extractSessionCompositeKey(data, sw.config.GroupByKeys)].lastActive))
+  ensures [C10] gap-above-the-timeout-starts-a-new-session: sw.config.TimeCharacteristic == "EventTime" && second(extractTimestamp(data, sw.config.TsProp, sw.config.TimeUnit)) && !$late && old(dom(sw.sessionMap, extractSessionCompositeKey(data, sw.config.GroupByKeys))) && extractTimestamp(data, sw.config.TsProp, sw.config.TimeUnit) > old(*sw.sessionMap[extractSessionCompositeKey(data, sw.config.GroupByKeys)].slot.End) ==> sw.sessionMap[extractSessionCompositeKey(data, sw.config.GroupByKeys)] != old(sw.sessionMap[extractSessionCompositeKey(data, sw.config.GroupByKeys)])
+
+func (*SessionWindow).collectExpiredSessions
+  props C10 C02
+  held sw.mu
+  requires ssInv(sw)
+  modifies mapof(sw.sessionMap), mapof(sw.triggeredSessions)
+  ensures ssInv(sw)
+  ensures delivered-only-after-the-watermark-passed-its-end: forallv(k, "", old(dom(sw.sessionMap, k)) && !dom(sw.sessionMap, k) ==> currentTime >= old(*sw.sessionMap[k].slot.End))
+  ensures every-ended-session-leaves-the-open-set: forallv(k, "", old(dom(sw.sessionMap, k)) && currentTime >= old(*sw.sessionMap[k].slot.End) ==> !dom(sw.sessionMap, k))
+  ensures sessions-still-open-are-untouched: forallv(k, "", dom(sw.sessionMap, k) ==> old(dom(sw.sessionMap, k)) && sw.sessionMap[k] == old(sw.sessionMap[k]))
+  ensures every-result-is-the-rows-of-one-ended-session: forall(j, 0, len(result), len(result[j]) > 0 && existsv(k, "", old(dom(sw.sessionMap, k)) && !dom(sw.sessionMap, k) && seqeq(result[j], old(sw.sessionMap[k].data))))
+  loop 1 invariant forall(j, 0, len(expiredKeys), dom(sw.sessionMap, expiredKeys[j]) && currentTime >= *sw.sessionMap[expiredKeys[j]].slot.End)
+  loop 1 invariant forallv(k, "", $visited[k] && currentTime >= *sw.sessionMap[k].slot.End ==> exists(j, 0, len(expiredKeys), expiredKeys[j] == k))
+  loop 1 invariant forall(a, 0, len(expiredKeys), forall(b, 0, len(expiredKeys), a != b ==> expiredKeys[a] != expiredKeys[b]))
+  loop 1 invariant forall(j, 0, len(expiredKeys), $visited[expiredKeys[j]])
+  loop 2 invariant ssInv(sw) && $s == expiredKeys
+  loop 2 invariant forall(j, 0, len($s), old(dom(sw.sessionMap, $s[j])) && currentTime >= old(*sw.sessionMap[$s[j]].slot.End))
+  loop 2 invariant forallv(k, "", old(dom(sw.sessionMap, k)) && currentTime >= old(*sw.sessionMap[k].slot.End) ==> exists(j, 0, len($s), $s[j] == k))
+  loop 2 invariant forall(a, 0, len($s), forall(b, 0, len($s), a != b ==> $s[a] != $s[b]))
+  loop 2 invariant forallv(k, "", dom(sw.sessionMap, k) <==> old(dom(sw.sessionMap, k)) && !exists(j, 0, $i, $s[j] == k))
+  loop 2 invariant forallv(k, "", dom(sw.sessionMap, k) ==> sw.sessionMap[k] == old(sw.sessionMap[k]))
+  loop 2 invariant forall(r, 0, len(resultsToSend), len(resultsToSend[r]) > 0 && exists(j, 0, $i, seqeq(resultsToSend[r], old(sw.sessionMap[$s[j]].data))))
+
+pred mapUnchangedS(sw) := forallv(k, "", (dom(sw.sessionMap, k) <==> old(dom(sw.sessionMap, k))) && sw.sessionMap[k] == old(sw.sessionMap[k]))
 @*/
